@@ -50,6 +50,15 @@ def _bool_eval(node: ast.expr, val: dict) -> bool:
         return all(vs) if isinstance(node.op, ast.And) else any(vs)
     if isinstance(node, ast.UnaryOp) and isinstance(node.op, ast.Not):
         return not _bool_eval(node.operand, val)
+    if isinstance(node, ast.Compare) and len(node.ops) == 1 and isinstance(node.left, ast.Call) and isinstance(node.left.func, ast.Attribute) and node.left.func.attr == "count" \
+            and len(node.left.args) == 1 and isinstance(node.left.args[0], ast.Name) and isinstance(node.comparators[0], ast.Constant) and "__counts__" in val:
+        # results.count(code) <op> n : the valuation carries how many boundaries gave each code (0, 1 or 2 = several)
+        cnt = val["__counts__"].get((ast.unparse(node.left.func.value), node.left.args[0].id))
+        if cnt is None:
+            raise AnalysisError(f"remove_cutout: unknown count '{ast.unparse(node.left)}'")
+        n_ = node.comparators[0].value
+        op = node.ops[0]
+        return {ast.Eq: cnt == n_, ast.NotEq: cnt != n_, ast.Lt: cnt < n_, ast.LtE: cnt <= n_, ast.Gt: cnt > n_, ast.GtE: cnt >= n_}.get(type(op), None) if type(op) in (ast.Eq, ast.NotEq, ast.Lt, ast.LtE, ast.Gt, ast.GtE) else _bool_raise(node)
     if isinstance(node, ast.Compare) and len(node.ops) == 1 and isinstance(node.ops[0], (ast.In, ast.NotIn)):
         k = f"{ast.unparse(node.left)} in {ast.unparse(node.comparators[0])}"
         if k not in val:
@@ -61,6 +70,10 @@ def _bool_eval(node: ast.expr, val: dict) -> bool:
         return val[node.id]
     if isinstance(node, ast.Constant) and isinstance(node.value, bool):
         return node.value
+    raise AnalysisError(f"remove_cutout: condition not understood: {ast.unparse(node)}")
+
+
+def _bool_raise(node):
     raise AnalysisError(f"remove_cutout: condition not understood: {ast.unparse(node)}")
 
 
@@ -272,24 +285,27 @@ def check(prog: Program, tier: str) -> Result:
             decide.remove(blk)
     n_rows = 0
     bad_rows = []
-    for I, E, K, R in itertools.product((False, True), repeat=4):
+    # how many boundaries answer 'inside' / 'on edge': none, one, several - so that conditions on membership AND on counts are decided
+    for (IC, EC), K, R in itertools.product(itertools.product((0, 1, 2), repeat=2), (False, True), (False, True)):
+        I, E = IC > 0, EC > 0
         if R in folded_modes:
             n_rows += 1
             continue
-        val = {f"{in_name} in {results}": I, f"{edge_name} in {results}": E, "keep_contour": K, "remove_inside": R}
+        val = {f"{in_name} in {results}": I, f"{edge_name} in {results}": E, "keep_contour": K, "remove_inside": R,
+               "__counts__": {(results, in_name): IC, (results, edge_name): EC}}
         got = _keeps(decide, val, sink)
         want = ((not I) and not (E and not K)) if R else (I or (E and K))
         n_rows += 1
         if got != want:
             bad_rows.append((I, E, K, R, got, want))
     res.count("decision_rows", n_rows)
-    res.floor("decision_rows", 16)
-    res.ob("R04.1", "keep / drop decision agrees with the statement on all 16 valuations of (inside-some, on-edge-some, keep_contour, remove_inside)", not bad_rows, prog.loc(fi, decide[0]) if decide else prog.loc(fi, fn))
+    res.floor("decision_rows", 36)
+    res.ob("R04.1", "keep / drop decision agrees with the statement on all 36 valuations of (inside by none / one / several, on edge by none / one / several, keep_contour, remove_inside)", not bad_rows, prog.loc(fi, decide[0]) if decide else prog.loc(fi, fn))
     for I, E, K, R, got, want in bad_rows[:4]:
         mode = "no-go" if R else "property"
         res.violation("R04.1", f"table|inside={I}|edge={E}|keep_contour={K}|remove_inside={R}", prog.loc(fi, decide[0]) if decide else prog.loc(fi, fn), q,
                       f"[{mode} mode] a point with inside-some={I}, on-edge-some={E}, keep_contour={K} is {'kept' if got else 'dropped'} but must be {'kept' if want else 'dropped'}")
-    res.sample({"rows": 16, "mismatches": bad_rows[:4]})
+    res.sample({"rows": 36, "mismatches": bad_rows[:4]})
 
     _check_calls(prog, res)
     _check_codes(prog, res)
@@ -316,6 +332,18 @@ def _check_calls(prog: Program, res: Result):
             res.violation("R04.2", f"call|{bd}|{got}", prog.loc(fi, c), q, f"the {bd} cut-out is called with (boundaries, remove_inside, keep_contour) = {got}; expected ({bd}, {ri}, {kc})")
         # the outlines handed to the cut are the caller's, all of them: the name may have been re-bound on the way (a None default,
         # a copy, a wrapped single polygon), but not to a filtered / sliced / recomputed list
+        # both cuts classify with the documented edge tolerance: remove_cutout's own default, or that very number spelled out
+        tol = b.get("on_edge_tolerance")
+        dflt_tol = rc.defaults().get("on_edge_tolerance")
+        if isinstance(tol, ast.Name) and tol.id in prog.modules[fi.module].constants and tol.id not in {x.id for x in ast.walk(fi.node) if isinstance(x, ast.Name) and isinstance(x.ctx, ast.Store)}:
+            tol = prog.modules[fi.module].constants[tol.id]  # a named module-level constant
+        okt = tol is None or (isinstance(tol, ast.Constant) and isinstance(dflt_tol, ast.Constant) and tol.value == dflt_tol.value)
+        res.ob("R04.2", f"the {bd} cut-out classifies with the documented edge tolerance ({ast.unparse(dflt_tol) if dflt_tol is not None else '?'})", okt, prog.loc(fi, c))
+        if not okt:
+            res.violation("R04.2", f"tolerance|{bd}|{ast.unparse(tol)[:40]}", prog.loc(fi, c), q,
+                          f"the {bd} cut-out is called with on_edge_tolerance = {ast.unparse(tol)[:60]} instead of the documented {ast.unparse(dflt_tol) if dflt_tol is not None else 'default'}: "
+                          "the band in which a borehole counts as lying on an outline then depends on something else (a spacing, a size), so boreholes clearly outside the property are kept and "
+                          "boreholes clear of a no-go zone are dropped")
         if isinstance(b.get("boundaries"), ast.Name) and b["boundaries"].id == bd:
             bad_defs = []
             for a_ in ast.walk(fi.node):
